@@ -100,12 +100,11 @@ func ZZAPI(props, script, varspec string) {
 	structural := e.badAllot || e.unbounded != ""
 
 	// ---------------- outcome: success / failure for the right reason
-	if zzWant(props, "C03") || zzWant(props, "C04") || zzWant(props, "C12") {
+	if zzWant(props, "C03") || zzWant(props, "C04") || zzWant(props, "C12") || zzWant(props, "C08") || zzWant(props, "C06") {
 		pfx := "C03:"
-		if !zzWant(props, "C03") {
-			pfx = "C04:"
-			if !zzWant(props, "C04") {
-				pfx = "C12:"
+		for _, p := range []string{"C12", "C08", "C06", "C04", "C03"} {
+			if zzWant(props, p) {
+				pfx = p + ":"
 			}
 		}
 		if err == nil {
